@@ -21,7 +21,11 @@ func name(p ssh.VerifC30Params) string {
 	if p.GoIsClient {
 		role = "client"
 	}
-	return fmt.Sprintf("go=%s peerStrict=%v cipher=%s %s@%d", role, p.PeerStrict, p.Cipher, actionName[p.Action], p.Pos)
+	ff := ""
+	if p.FirstFollows {
+		ff = " first_kex_packet_follows(wrong guess)"
+	}
+	return fmt.Sprintf("go=%s peerStrict=%v cipher=%s%s %s@%d", role, p.PeerStrict, p.Cipher, ff, actionName[p.Action], p.Pos)
 }
 
 type want int
@@ -37,7 +41,11 @@ func expectation(p ssh.VerifC30Params) want {
 		return wantTransparent
 	}
 	if p.PeerStrict {
-		if p.Pos <= 2 {
+		lim := 2 // positions 0..2 lie before the peer's first NEWKEYS ...
+		if p.FirstFollows {
+			lim = 3 // ... one more when a guessed packet follows the KEXINIT
+		}
+		if p.Pos <= lim {
 			return wantFail
 		}
 		// after the initial key exchange IGNORE and DEBUG are skipped in strict mode too -
@@ -142,7 +150,7 @@ func run(c *vf.Ctx) {
 	if c.Thorough {
 		bound = 1
 	}
-	c.Rule("for role{client,server} x peer offers strict{yes,no} x cipher x every position 0..9 of the peer's packet sequence (initial KEXINIT/kex/NEWKEYS, data, re-key KEXINIT/kex/NEWKEYS, data) x action{inject IGNORE/DEBUG/UNIMPLEMENTED/2nd KEXINIT/unknown type, delete, swap with successor} plus the fault-free runs; default schedule (thorough: <=1 deviation); oracle: strict + manipulation before first NEWKEYS => Go side never completes the handshake; fault-free and (non-strict) IGNORE/DEBUG runs fully transparent incl. re-key; strict => both sequence numbers restart at 0 after every NEWKEYS (read from the transport, compared with the peer's packet counts)")
+	c.Rule("for role{client,server} x peer offers strict{yes,no} x cipher x every position 0..9 of the peer's packet sequence (initial KEXINIT/kex/NEWKEYS, data, re-key KEXINIT/kex/NEWKEYS, data) x action{inject IGNORE/DEBUG/UNIMPLEMENTED/2nd KEXINIT/unknown type, delete, swap with successor} plus the fault-free runs; the same grid (positions 0..10) for a peer whose KEXINIT announces a wrongly guessed first kex packet and sends it (first cipher in quick, all in thorough); default schedule (thorough: <=1 deviation); oracle: strict + manipulation before first NEWKEYS => Go side never completes the handshake; fault-free and (non-strict) IGNORE/DEBUG runs fully transparent incl. re-key; strict => both sequence numbers restart at 0 after every NEWKEYS (read from the transport, compared with the peer's packet counts)")
 	c.Assume("the scripted peer stands for a network attacker in the cleartext phase (it sees and re-frames cleartext packets) and for a non-strict implementation when it withholds the marker")
 	var scs []schedx.Scenario
 	for _, goClient := range []bool{true, false} {
@@ -159,6 +167,20 @@ func run(c *vf.Ctx) {
 						p := base
 						p.Pos, p.Action = pos, a
 						add(p)
+					}
+				}
+				// the peer's KEXINIT announces a guessed first packet (wrong guess): one more packet
+				// before the first NEWKEYS that the Go side has to discard - exactly one
+				if ci == ciphers[0] || c.Thorough {
+					fb := base
+					fb.FirstFollows = true
+					add(fb)
+					for pos := 0; pos <= 10; pos++ {
+						for a := 1; a < ssh.VerifC30NActions; a++ {
+							p := fb
+							p.Pos, p.Action = pos, a
+							add(p)
+						}
 					}
 				}
 			}
